@@ -116,7 +116,9 @@ Definition last_visited (vals : pvmap) (oracle : str) : option pv :=
   | None => match rev vals with (_, v) :: _ => Some v | [] => None end
   end.
 
+(* oracle = [] : every iteration has its own copy (go >= 1.22 loop variables, or the repaired code) *)
 Definition store_vals_v3 (oracle : str) (vals : pvmap) (m : pvmap) : pvmap :=
+  if eqb_str oracle [] then store_vals vals m else
   match last_visited vals oracle with
   | Some lastv => fold_left (fun acc x => put_path_as (fst x) (snd x) lastv acc) vals m
   | None => m
